@@ -262,7 +262,7 @@ func CheckImports(run *core.Run, prog *load.Program) {
 			return true
 		})
 	})
-	run.Floor("G-IMPORT/keys", 4)
+	run.Floor("G-IMPORT/keys", 2)
 	// who may call AddImport
 	// callers: the type walker family (what AddVar reaches inside the registry) and the Mock family (what
 	// Mock reaches inside pkg/moq, registering exactly sync and the source package: G-DATA/imports)
